@@ -47,8 +47,21 @@ def excluded_headers():
     return out[True]
 
 
-def _lits(js: ast.JoinedStr) -> str:
-    return "".join(p.value for p in js.values if isinstance(p, ast.Constant))
+def _lits(js: ast.JoinedStr, resolve=None) -> str:
+    """the literal text of an f-string; a `{NAME}` part that names a hoisted string constant counts as literal text"""
+    out = []
+    for p in js.values:
+        if isinstance(p, ast.Constant):
+            out.append(p.value)
+        elif resolve is not None and isinstance(p, ast.FormattedValue) and isinstance(p.value, (ast.Name, ast.Attribute)) \
+                and p.conversion == -1 and p.format_spec is None:
+            try:
+                v = resolve(p.value)
+            except KeyError:
+                continue
+            if isinstance(v, str):
+                out.append(v)
+    return "".join(out)
 
 
 def tables() -> str:
@@ -58,18 +71,26 @@ def tables() -> str:
     id_headers = sorted(frm.field_name_to_header_name(f) for f in id_fields)
 
     cls = _find_class(_parse("rapidpro/models/containers.py"), "FlowContainer")
+    cmod = t1lib.load("rpft.rapidpro.models.containers")
+    resolve = t1lib.Resolver(cmod.FlowContainer, cmod)     # literals, or names of constants hoisted out of the methods
+
+    def const(node):
+        try:
+            return resolve(node)
+        except KeyError:
+            return None
+
     # Edge(from_="start")
     start_from = t1lib.one({
-        ast.literal_eval(k.value)
+        const(k.value)
         for n in t1lib.find_all(cls, lambda n: isinstance(n, ast.Call) and t1lib.dotted(n.func) == "Edge")
-        for k in n.keywords if k.arg == "from_" and isinstance(k.value, ast.Constant)
+        for k in n.keywords if k.arg == "from_" and isinstance(const(k.value), str)
     }, "Edge(from_=<constant>) in FlowContainer")
     # the initial remapping dict: an all-constant dict that holds the start id
     dicts = []
-    for n in t1lib.find_all(cls, lambda n: isinstance(n, ast.Dict) and n.keys):
-        try:
-            d = ast.literal_eval(n)
-        except (ValueError, SyntaxError, TypeError):
+    for n in t1lib.find_all(cls, lambda n: isinstance(n, ast.Dict) and n.keys and all(k is not None for k in n.keys)):
+        d = {const(k): const(v) for k, v in zip(n.keys, n.values)}
+        if None in d or None in d.values():
             continue
         if start_from in d and all(isinstance(k, str) and isinstance(v, str) for k, v in d.items()):
             dicts.append(sorted(d.items()))
@@ -79,11 +100,11 @@ def tables() -> str:
     for n in t1lib.find_all(cls, lambda n: isinstance(n, ast.Call) and t1lib.dotted(n.func) == "FlowRowModel"):
         kw = {k.arg: k.value for k in n.keywords}
         if isinstance(kw.get("row_id"), ast.JoinedStr) and isinstance(kw.get("type"), ast.Constant):
-            gotos.append((_lits(kw["row_id"]), kw["type"].value))
+            gotos.append((_lits(kw["row_id"], resolve), kw["type"].value))
     goto_lit, goto_type = t1lib.one(gotos, "FlowRowModel(row_id=f'…', type=…) in FlowContainer")
     # temporary ids: f"{node.uuid}|{node.short_name()}"
     seps = {
-        _lits(n) for n in t1lib.find_all(cls, lambda n: isinstance(n, ast.JoinedStr))
+        _lits(n, resolve) for n in t1lib.find_all(cls, lambda n: isinstance(n, ast.JoinedStr))
         if any(isinstance(c, ast.Call) and isinstance(c.func, ast.Attribute) and c.func.attr == "short_name" for c in ast.walk(n))
     }
     temp_sep = t1lib.one(seps, "f-string joining a uuid with short_name()")
